@@ -2,6 +2,7 @@
 import sys
 
 from sa import report, effects as E, rules_state as RS, rules_registry as RR
+from sa import rules_extra as RX
 
 
 def run(ctx, repo):
@@ -24,7 +25,8 @@ def run(ctx, repo):
     RS.r_directives_reset(ctx, repo)
     RS.r_resolver_bracket(ctx, repo)
     RS.r_one_object_per_call(ctx, repo)
-
+    RX.r_emitter_doc_reset(ctx, repo)
+    RX.r_no_process_state(ctx, repo)
 
 if __name__ == '__main__':
     sys.exit(report.main('C11', 'other', run))
